@@ -10,6 +10,11 @@ import (
 	"encoding/hex"
 	"encoding/json"
 	"fmt"
+	"github.com/bufbuild/buf/private/buf/buftarget"
+	"github.com/bufbuild/buf/private/buf/bufworkspace"
+	"github.com/bufbuild/buf/private/bufpkg/bufplugin"
+	"github.com/bufbuild/buf/private/pkg/storage/storageos"
+	"github.com/bufbuild/verifharness/internal/bufx"
 	"math/rand"
 	"os"
 	"path/filepath"
@@ -31,18 +36,18 @@ import (
 func init() { reg.Register("digest-replay", run) }
 
 type term struct {
-	Op      string            `json:"op"`
-	Arg     *term             `json:"arg"`
-	S       string            `json:"s"`
-	ID      string            `json:"id"`
-	P       string            `json:"p"`
-	Args    []term            `json:"args"`
-	Prefix  string            `json:"prefix"`
-	H       *term             `json:"h"`
-	First   *term             `json:"first"`
-	Rest    []term            `json:"rest"`
-	M       string            `json:"m"`
-	Imports bool              `json:"imports"`
+	Op      string `json:"op"`
+	Arg     *term  `json:"arg"`
+	S       string `json:"s"`
+	ID      string `json:"id"`
+	P       string `json:"p"`
+	Args    []term `json:"args"`
+	Prefix  string `json:"prefix"`
+	H       *term  `json:"h"`
+	First   *term  `json:"first"`
+	Rest    []term `json:"rest"`
+	M       string `json:"m"`
+	Imports bool   `json:"imports"`
 }
 
 type stateRec struct {
@@ -77,7 +82,7 @@ func (st *stateRec) depImport() string {
 	return "dep/d.proto"
 }
 
-var realPath = map[string]string{"d/u-umlaut.proto": "d/ü.proto"}
+var realPath = map[string]string{"d/u-umlaut.proto": "d/ü.proto", "wide-space.proto": "\u3000w.proto"}
 
 func rp(p string) string {
 	if r, ok := realPath[p]; ok {
@@ -346,6 +351,52 @@ func run(in []byte) (*reg.Result, error) {
 						res.Violate(sig+"/value", caseInfo, "Module.Digest(b5) on backend %s = %s; the published construction (evaluated with x/crypto/sha3) gives %s", backend, d.String(), wantB5)
 					}
 				}
+				// the same module loaded as a module of a v2 workspace on disk (bufworkspace adds the licence and the
+				// documentation file of the module directory on its own way); dependencies are sibling modules
+				if st.Target {
+					ws := filepath.Join(dir, "ws")
+					_ = os.RemoveAll(ws)
+					write := func(rel string, data []byte) error {
+						p := filepath.Join(ws, filepath.FromSlash(rel))
+						if err := os.MkdirAll(filepath.Dir(p), 0o755); err != nil {
+							return err
+						}
+						return os.WriteFile(p, data, 0o644)
+					}
+					yaml := "version: v2\nmodules:\n  - path: mod\n    name: buf.test/verif/" + st.Name + "\n"
+					var werr error
+					for k, v := range files {
+						if err := write("mod/"+k, v); err != nil {
+							werr = err
+						}
+					}
+					if hasDep {
+						yaml += "  - path: dep\n    name: buf.test/verif/dep\n"
+						if err := write("dep/"+st.depImport(), depContent(map[bool]string{true: "W", false: "D"}[st.DepWKT], st.Dep, st.DepDep != "-")); err != nil {
+							werr = err
+						}
+						if st.DepDep != "-" {
+							yaml += "  - path: depdep\n    name: buf.test/verif/depdep\n"
+							if err := write("depdep/e/e.proto", depContent("E", st.DepDep, false)); err != nil {
+								werr = err
+							}
+						}
+					}
+					if err := write("buf.yaml", []byte(yaml)); err != nil {
+						werr = err
+					}
+					if werr != nil {
+						fail(werr)
+						return
+					}
+					d, err := workspaceDigest(ctx, ws, "buf.test/verif/"+st.Name)
+					res.Count(1, 0)
+					if err != nil {
+						res.Violate("b5/workspace/error", caseInfo, "the digest of the module loaded through a v2 workspace on disk failed: %v", err)
+					} else if d != wantB5 {
+						res.Violate("b5/workspace/value", caseInfo, "Module.Digest(b5) of the module loaded through a v2 workspace on disk = %s; the published construction gives %s", d, wantB5)
+					}
+				}
 				// manifest: canonical text and round trip
 				var nodes []bufcas.FileNode
 				nodeErr := false
@@ -396,4 +447,32 @@ func run(in []byte) (*reg.Result, error) {
 	}
 	res.Distinct = len(inp.States)
 	return res, nil
+}
+
+// workspaceDigest loads the v2 workspace at root with the real workspace provider and returns the b5 digest of
+// the named module.
+func workspaceDigest(ctx context.Context, root string, name string) (string, error) {
+	bucket, err := storageos.NewProvider(storageos.ProviderWithSymlinks()).NewReadWriteBucket(root, storageos.ReadWriteBucketWithSymlinksIfSupported())
+	if err != nil {
+		return "", err
+	}
+	targeting, err := buftarget.NewBucketTargeting(ctx, bufx.Logger, bucket, ".", nil, nil, buftarget.TerminateAtControllingWorkspace)
+	if err != nil {
+		return "", err
+	}
+	ws, err := bufworkspace.NewWorkspaceProvider(bufx.Logger, bufmodule.NopGraphProvider, bufmodule.NopModuleDataProvider, bufmodule.NopCommitProvider, bufplugin.NopPluginKeyProvider).
+		GetWorkspaceForBucket(ctx, bucket, targeting)
+	if err != nil {
+		return "", err
+	}
+	for _, m := range ws.Modules() {
+		if m.FullName() != nil && m.FullName().String() == name {
+			d, err := m.Digest(bufmodule.DigestTypeB5)
+			if err != nil {
+				return "", err
+			}
+			return d.String(), nil
+		}
+	}
+	return "", fmt.Errorf("module %s not in the workspace", name)
 }
